@@ -39,6 +39,16 @@ CHECKS = {
         "DESIGN.md 6 C05",
         TRUST,
     ),
+    "C04": (
+        "TLC exhaustive check of MC_Conservation (face-flux identity over all upwind sign patterns incl. ties; sum laws over "
+        "unit impulses x velocity patterns; margins derived by refutation; negative controls) + replay of the cases into the "
+        "real kernels (telescoping partial sums and grid sums on the code's own outputs, exact-rational and compiled) + "
+        "step-level sums on the real simulators",
+        "Model checking of conservation form and of the sum laws (exhaustive within the stencil window, lifted by linearity) and "
+        "conformance by replay; the property is evaluated directly on the code's outputs, no transcription of stencils.",
+        "DESIGN.md 6 C04",
+        TRUST,
+    ),
 }
 
 NOT_YET = "check not built yet in this round (see DESIGN.md 11 for the build order)"
